@@ -338,6 +338,48 @@ func linearity(m *minify.M, mt string, unit []byte, name string) {
 	linearityWrapped(m, mt, "", unit, "", name, 0)
 }
 
+// linearityDouble: prefix + unit^n + mid + unit^n + suffix at n and 16n
+func linearityDouble(m *minify.M, mt, prefix string, unit []byte, mid, suffix, name string) {
+	unit2 := unit
+	if k := strings.Index(mid, "|"); k >= 0 { // "mid|unit2": the second block repeats another unit
+		unit2 = []byte(mid[k+1:])
+		mid = mid[:k]
+	}
+	timeFor := func(rep int) (time.Duration, bool) {
+		blk := bytes.Repeat(unit, rep)
+		blk2 := bytes.Repeat(unit2, rep)
+		in := append(append(append(append([]byte(prefix), blk...), mid...), blk2...), suffix...)
+		best := time.Duration(1 << 62)
+		for k := 0; k < 2; k++ {
+			o, ok := runOne(m, mt, in, 20*time.Second)
+			if !ok {
+				return 0, false
+			}
+			if o.dur < best {
+				best = o.dur
+			}
+		}
+		return best, true
+	}
+	base := 32000 / maxInt(len(unit), 1) // 16x = 128k units per block: beyond every size cut-off in the minifiers
+	t1, ok1 := timeFor(base)
+	t8, ok8 := timeFor(base * 16)
+	mu.Lock()
+	res.Evaluations += 2
+	res.Hist("linearity", mt)
+	mu.Unlock()
+	if !ok1 || !ok8 {
+		viol("timeout", "superlinear:"+name, mt, unit, "repetition did not finish in 20 s", map[string]string{"unit": name, "prefix": prefix, "mid": mid, "suffix": suffix})
+		return
+	}
+	if t1 < 200*time.Microsecond {
+		t1 = 200 * time.Microsecond
+	}
+	if ratio := float64(t8) / float64(t1); ratio > 16*12 && t8 > 300*time.Millisecond {
+		viol("timeout", "superlinear:"+name, mt, unit, fmt.Sprintf("16x input cost %.0fx time (%v -> %v)", ratio, t1, t8), map[string]string{"unit": name, "prefix": prefix, "mid": mid, "suffix": suffix})
+	}
+}
+
 func linearityWrapped(m *minify.M, mt string, prefix string, unit []byte, suffix string, name string, baseRep int) {
 	// time for 1x and 16x repetitions of a unit; flag only clearly super-linear growth
 	timeFor := func(rep int) (time.Duration, bool) {
@@ -548,6 +590,33 @@ func main() {
 		{"text/css", "css-datauri", "a{b:url(data:text/plain,%41%42%43abcdefg%20)}"},
 	} {
 		linearity(m, p.mt, []byte(p.unit), p.name)
+	}
+	// probes aimed at the size limits inside the minifiers (hoisting cut-off, value-count limits, long attribute/path lists):
+	// prefix + unit^n [+ mid + unit^n] + suffix
+	for _, p := range []struct{ mt, name, prefix, unit, mid, suffix string }{
+		{"application/javascript", "js-var-declarators", "function f(){var z=0", ",a=1", "", ";return a}"},
+		{"application/javascript", "js-var-declarators-two-statements", "function f(){var z=0", ",a=1", ";g();var y=0", ";return a}"},
+		{"application/javascript", "js-var-names-two-statements", "function f(){var z", ",b", ";g();var y", ";return b}"},
+		{"application/javascript", "js-var-defs-then-names", "function f(){var a=1", ",a=1", ";g();var b|,b", ";return b}"},
+		{"application/javascript", "js-var-names-then-defs", "function f(){var b", ",b", ";g();var a=1|,a=1", ";return b}"},
+		{"application/javascript", "js-args", "f(0", ",1", "", ")"},
+		{"text/css", "css-values", "a{b:0", " 1px", "", "}"},
+		{"text/css", "css-selectors", "a", ",b", "", "{c:d}"},
+		{"text/css", "css-declarations", "a{", "b:c;", "", "}"},
+		{"image/svg+xml", "svg-long-path", "<svg><path d=\"M0 0", "L1 1", "", "\"/></svg>"},
+		{"image/svg+xml", "svg-attrs", "<svg", " x=\"1\"", "", "/>"},
+		{"text/html", "html-attrs-many", "<a", " x=\"1\"", "", ">t</a>"},
+		{"text/xml", "xml-attrs", "<a", " x=\"1\"", "", "/>"},
+		{"application/json", "json-flat-array", "[0", ",1", "", "]"},
+	} {
+		pre, suf := p.prefix, p.suffix
+		if p.mid != "" {
+			// second block inside the suffix is sized by the same repetition: build it through a closure-free trick:
+			// unit^n + mid + unit^n  ==  (unit^n) with the wrapped probe run on the doubled form
+			linearityDouble(m, p.mt, pre, []byte(p.unit), p.mid, suf, p.name)
+			continue
+		}
+		linearityWrapped(m, p.mt, pre, []byte(p.unit), suf, p.name, 0)
 	}
 	res.Rule = "token buffers: random Peek/Shift sequences over real html/xml lexers on corpus slices (model correspondence); hostile stream: every corpus and benchmark file plus deterministic mutations/splices/truncations/duplications/keyword insertions of them (sometimes fed to the wrong minifier), deep nesting and repetition families, each under recover with a time limit proportional to size; Bytes/String checked to hand back the original on every erroring input; 16x size-scaling time probes; distinct_nontrivial = hostile inputs that were accepted and rewritten"
 	res.Samples = []interface{}{map[string]string{"mediatype": "text/html", "mutation_of": "tests/html/corpus", "example": "<p class=a  b>x<script></scr<!--ipt>"}, map[string]string{"buffer_ops": "P0,S,P3,P0,S,S,P12"}}
